@@ -24,10 +24,16 @@ type headImage struct {
 	recEnds     []int64 // end positions of the records
 	name        string
 	opts        klevdb.Options
+	large       bool // holds a record beyond 64 KiB: damage is enumerated around the record boundaries only
 }
 
 // buildHead writes a single head segment with the real writer and returns its bytes.
 func buildHead(root string, id int, ver int, times, keys bool, nrecs int, rng *rand.Rand) (*headImage, error) {
+	return buildHeadL(root, id, ver, times, keys, nrecs, -1, rng)
+}
+
+// buildHeadL: largeAt >= 0 gives that record a body beyond 64 KiB (the readers' large-record path).
+func buildHeadL(root string, id int, ver int, times, keys bool, nrecs int, largeAt int, rng *rand.Rand) (*headImage, error) {
 	dir := filepath.Join(root, fmt.Sprintf("fh-%d", id))
 	os.MkdirAll(dir, 0o700)
 	defer os.RemoveAll(dir)
@@ -52,6 +58,9 @@ func buildHead(root string, id int, ver int, times, keys bool, nrecs int, rng *r
 		if rng.Intn(4) > 0 {
 			m.Value = valueBytes(i+1, pick(rng, []int{1, 7, 30, 90}))
 		}
+		if i == largeAt {
+			m.Value = valueBytes(i+1, pick(rng, []int{65505, 66000, 70000}))
+		}
 		if _, err := l.Publish([]klevdb.Message{m}); err != nil {
 			return nil, err
 		}
@@ -59,7 +68,7 @@ func buildHead(root string, id int, ver int, times, keys bool, nrecs int, rng *r
 	if err := l.Close(); err != nil {
 		return nil, err
 	}
-	h := &headImage{ver: ver, times: times, keys: keys, nrecs: nrecs, opts: opts}
+	h := &headImage{ver: ver, times: times, keys: keys, nrecs: nrecs, opts: opts, large: largeAt >= 0}
 	h.log, _ = os.ReadFile(filepath.Join(dir, fmt.Sprintf("%020d.log", 0)))
 	h.idx, _ = os.ReadFile(filepath.Join(dir, fmt.Sprintf("%020d.index", 0)))
 	lf := refcodec.ParseLog(h.log, 0)
@@ -88,6 +97,22 @@ func (h *headImage) cases(rng *rand.Rand, thorough bool) []frameCase {
 		cs = append(cs, frameCase{head: h, log: log, idx: idx, what: fmt.Sprintf(what, a...)})
 	}
 	n := len(h.log)
+	// a head with a large record: every position within 48 bytes of a record boundary (and of the file header),
+	// every 997th byte otherwise
+	near := func(pos int) bool {
+		if !h.large {
+			return true
+		}
+		if pos < 64 || pos%997 == 0 {
+			return true
+		}
+		for _, e := range h.recEnds {
+			if d := int64(pos) - e; d > -48 && d < 48 {
+				return true
+			}
+		}
+		return false
+	}
 	add(clone(h.log), clone(h.idx), "undamaged")
 	add(clone(h.log), nil, "index missing")
 	hdr := 0
@@ -97,6 +122,9 @@ func (h *headImage) cases(rng *rand.Rand, thorough bool) []frameCase {
 	// truncation at every length: 0, or at/after the file header
 	add([]byte{}, clone(h.idx), "truncate log to 0")
 	for cut := 8; cut < n; cut++ {
+		if !near(cut) {
+			continue
+		}
 		add(clone(h.log[:cut]), clone(h.idx), "truncate log to %d", cut)
 		if thorough || cut%5 == 0 {
 			add(clone(h.log[:cut]), nil, "truncate log to %d, index missing", cut)
@@ -105,6 +133,9 @@ func (h *headImage) cases(rng *rand.Rand, thorough bool) []frameCase {
 	if h.ver == 2 {
 		// every single-byte corruption position after the file header
 		for pos := hdr; pos < n; pos++ {
+			if !near(pos) {
+				continue
+			}
 			b := clone(h.log)
 			b[pos] ^= byte(1 << uint(rng.Intn(8)))
 			add(b, clone(h.idx), "flip a bit of log byte %d", pos)
@@ -120,6 +151,9 @@ func (h *headImage) cases(rng *rand.Rand, thorough bool) []frameCase {
 			twoRecs = 36 + 20 + 40
 		}
 		for tl := 1; tl <= twoRecs; tl++ {
+			if h.large && tl > 40 && tl%9 != 0 {
+				continue
+			}
 			for k, fill := range []string{"zero", "ff", "random"} {
 				if !thorough && tl > 40 && (tl+k)%3 != 0 {
 					continue
@@ -312,6 +346,24 @@ func runFrames(r *SeqRun) {
 					return
 				}
 				all = append(all, h.cases(rng, thorough)...)
+			}
+		}
+	}
+	// heads with a record beyond 64 KiB, as the last record and in the middle (V2 and V1, two index configurations)
+	nlarge := 1
+	if thorough {
+		nlarge = 8
+	}
+	for li := 0; li < nlarge; li++ {
+		for _, ver := range []int{2, 1} {
+			for _, at := range []int{2, 1} {
+				id++
+				h, err := buildHeadL(r.Scratch, id, ver, li%2 == 0, li%2 == 1, 3, at, rng)
+				if err != nil {
+					r.infra("build large head: %v", err)
+					return
+				}
+				all = append(all, h.cases(rng, false)...)
 			}
 		}
 	}
